@@ -2597,11 +2597,12 @@ class Recipe:
                         flows["in"] += (sum(map(helper, step.to[1].contents.items())) -
                                         sum(map(helper, step.to[0].contents.items())))
                 if isinstance(step.to[0], Plate) and step.to[0].name == container.name:
-                    if step.trash:
-                        flows["out"] += sum(map(helper, step.trash.items()))
-                    else:
-                        vfunc = np.vectorize(plate_helper, otypes=[float])
-                        flows["in"] += vfunc(step.to[1].wells) - vfunc(step.to[0].wells)
+                    # per well: what a well gained is inflow, what it lost (transferred away or removed) is outflow
+                    vfunc = np.vectorize(plate_helper, otypes=[float])
+                    delta = vfunc(step.to[1].wells) - vfunc(step.to[0].wells)
+                    flows["in"] += np.maximum(delta, 0)
+                    flows["out"] += np.maximum(-delta, 0)
+                    continue
                 if isinstance(step.frm[0], Container) and step.frm[0].name == container.name:
                     flows["out"] += (sum(map(helper, step.frm[0].contents.items())) -
                                      sum(map(helper, step.frm[1].contents.items())))
